@@ -27,6 +27,14 @@ var SmallRegexGrammar = RegexGrammar{
 	Binary: []string{"%s%s", "%s|%s"},
 }
 
+// TinyRegexGrammar reaches deeper nestings of repetition and alternation than the other two can
+// within the same budget (C18 enumerates it two sizes further).
+var TinyRegexGrammar = RegexGrammar{
+	Atoms:  []string{"a", "b"},
+	Unary:  []string{"%s*", "%s+", "%s?"},
+	Binary: []string{"%s%s", "%s|%s"},
+}
+
 func subst(pat string, args ...string) string {
 	out := make([]byte, 0, len(pat)+16)
 	ai := 0
